@@ -73,6 +73,10 @@ def _cmpval(T, tt, v):
     allowed to normalise line ends): compare single-line comments without it."""
     if _is_single_comment(T, tt):
         return v.rstrip('\r\n')
+    if ('\r' in v) and (tt in T.Keyword or tt in T.Operator or tt is T.Name.Builtin):
+        # multi-word keywords ('END\r\nIF', 'NOT\r\nLIKE', 'DOUBLE\r\nPRECISION') contain inter-word whitespace that
+        # the lexer keeps inside the token; its line ends may be normalised like any other line end
+        return v.replace('\r\n', '\n').replace('\r', '\n')
     return v
 
 
@@ -199,8 +203,6 @@ def _render(lexemes, rnd, comments=False, crlf=False, p_cm=0.12, rare=False, hin
                 # a glued comment directly after '-' or '/' would change the preceding lexeme: keep a blank there
                 if prev[-1:] in '-/' and not cm[0].isspace():
                     cm = ' ' + cm
-                if not punct and not cm[-1].isspace() and lx[:1] not in '(),;':
-                    pass  # '/* c */name' is fine for the lexer: the comment ends at '*/'
                 sep = cm
             if crlf:
                 sep = sep.replace('\n', '\r\n')
@@ -286,8 +288,9 @@ RULE_C06 = (
     "blank, unclosed quote/paren/comment, lone keywords). Options: none, each single layout option with each "
     "value (booleans True; indent_width in 1,2,4,8; wrap_after in 0,1,20,80), every pair with every value "
     "combination (142 sets, rotated over the scripts, 5 per script) and 2 seeded larger subsets per script "
-    "(size 3..11, at least one option that activates a filter). thorough: additionally all 2^11 subsets on 40 "
-    "small scripts and 6x the quick volume. Oracle: re-tokenise input and output with the real lexer, drop "
+    "(size 3..11, at least one option that activates a filter). Quick volume: 1700 + 1000 scripts x 7 sets, "
+    "1200 soups x 4 sets, odd texts x 18 single sets. thorough: additionally all 2^11 subsets on 40 small "
+    "scripts and 6x the quick volume. Oracle: re-tokenise input and output with the real lexer, drop "
     "T.Whitespace, require equal value sequences (the line terminator the lexer attaches to a '--' comment is "
     "not compared), report differing token types as class 'retyped', and require len(split(out)) == "
     "len(split(in)). A case where format() raises is vacuous here (C07 covers exceptions). Non-trivial: the "
@@ -342,7 +345,7 @@ def oracle_C06(case):
     try:
         a = _sig(text)
         b = _sig(out)
-    except Exception as e:   # the lexer is total (C01); if not, that is not this property's failure
+    except Exception:   # the lexer is total (C01); if not, that is not this property's failure
         return None
     r = _compare_sig(a, b)
     if r is not None:
@@ -400,7 +403,8 @@ RULE_C07 = (
     "comments) x {tree, 3 sets}; ~130 odd texts x {tree, all 20 fixed sets}; all soups of 3 fragments over a "
     "24-fragment sub-alphabet of delimiters and group triggers x {tree, 5 single-filter sets}; every (option, "
     "invalid value) x 5 texts (2 of them crash a filter; used for strict values only) x 2 base sets. thorough: "
-    "the 3-fragment soups over a 41-fragment sub-alphabet x {tree, 6 sets} and 10x the seeded volume. Non-trivial: text non-empty; for fmt cases the option set activates >= 1 filter."
+    "the 3-fragment soups over a 41-fragment sub-alphabet x {tree, 6 sets} and 10x the seeded volume. "
+    "Non-trivial: text non-empty; for fmt cases the option set activates >= 1 filter."
 )
 
 _C07_FIXED = [_o(d) for d in [
@@ -665,9 +669,13 @@ RULE_C08 = (
     "String.Single with len(inner) > N) and compared with the re-tokenised output: values first, then types "
     "(class 'retyped'). identifier_case is lenient: tokens of type exactly Name must be converted, other Name "
     "subtypes (Builtin, Placeholder) and Symbols not starting with a double quote may or may not be, "
-    "everything else must be unchanged. Idempotence: format(out, same option) == out when the option is used "
-    "alone, equality of significant tokens when combined with layout options. Exceptions are vacuous here "
-    "(C07). Non-trivial: the text contains >= 1 token of the targeted kind."
+    "everything else must be unchanged; where the cut of a truncation falls inside a doubled quote a cut one "
+    "character earlier or later is tolerated. Idempotence: a second pass with the same options must keep the "
+    "significant tokens; when the targeted option is used alone also format(out) == out (a difference in "
+    "whitespace only is its own class 'not-idempotent:whitespace-only'). Exceptions are vacuous here (C07). "
+    "Quick volume: 900 + 900 grammar scripts x 4-5 option sets, 1500 soups x 4, ~140 odd texts x 14 targeted "
+    "sets, 756 hand-made comment placements, 20 hand-made literals x 5 contexts x 7 truncation sets; thorough "
+    "8x the seeded volume. Non-trivial: the text contains >= 1 token of the targeted kind."
 )
 
 _C08_TARGETS = (
@@ -824,9 +832,7 @@ def oracle_C08(case):
         if tg == 'strip_comments':
             ve = [_cmpval(T, tt, v) for tt, v in resolved]
             vg = [_cmpval(T, tt, v) for tt, v in b]
-            missing = None
             if _is_subseq(vg, ve):
-                it = iter(vg)
                 # which expected tokens are missing
                 miss = []
                 j = 0
@@ -894,14 +900,16 @@ RULE_C10 = (
     "own nesting tracker: strip_whitespace -> first and last token not whitespace, no two adjacent whitespace "
     "tokens (whitespace inside a comment/literal token, including the line end of a '--' comment, is not "
     "counted), no whitespace token after a '(' or before a ')' of a matched pair unless a comment is on the "
-    "other side of that whitespace or of that parenthesis (both readings of 'except next to a comment'), and format(out) == out; use_space_around_operators -> every token typed Operator/Comparison "
-    "has a whitespace character or the text boundary on each side, and format(out) == out; reindent -> every "
-    "keyword FROM, *JOIN, WHERE, AND/OR (except the AND of BETWEEN..AND), GROUP BY, ORDER BY, HAVING, LIMIT, "
-    "UNION [ALL], EXCEPT, SET whose enclosing brackets are all subquery parentheses (first significant token "
-    "SELECT), that is not inside CASE..END and that the lexer also types as a keyword in the INPUT (a word glued to "
-    "'(' is a Name there) is preceded on its line by whitespace only, and no line ends in "
-    "a blank or tab outside a literal. Exceptions are vacuous here (C07). Non-trivial: the script has >= 1 "
-    "operator / parenthesis / clause keyword respectively."
+    "other side of that whitespace or of that parenthesis (both readings of 'except next to a comment'), and "
+    "format(out) == out; use_space_around_operators -> every token typed Operator/Comparison has a whitespace "
+    "character or the text boundary on each side, and format(out) == out; reindent -> every keyword FROM, "
+    "*JOIN, WHERE, AND/OR (except the AND of BETWEEN..AND), GROUP BY, ORDER BY, HAVING, LIMIT, UNION [ALL], "
+    "EXCEPT, SET whose enclosing brackets are all subquery parentheses (first significant token SELECT), that "
+    "is not inside CASE..END and that the lexer also types as a keyword in the INPUT (a word glued to '(' is a "
+    "Name there; that retyping is C06's class 'retyped') is preceded on its line by whitespace only, and no "
+    "line ends in a blank or tab outside a literal. Exceptions are vacuous here (C07). Quick volume: 2000 + "
+    "1000 scripts x 5 option sets; thorough 8x plus all 512 reindent sub-option sets on 60 small scripts. "
+    "Non-trivial: the script has >= 1 operator / parenthesis / clause keyword respectively."
 )
 
 _REINDENT_SUB = [('indent_width', [1, 2, 4, 8]), ('indent_tabs', [False, True]), ('indent_after_first', [False, True]),
@@ -1122,7 +1130,7 @@ def oracle_C10(case):
             fixed = True
         else:
             return _fail('bad-case', case, opts, 'one of the three named options')
-    except Exception as e:
+    except Exception:
         return None      # lexer failure on the output is not this property's subject
     if r is not None:
         what, det = r
